@@ -4,7 +4,8 @@ A spec is a plain dict; `build(spec)` returns a dict of float64 arrays with the 
 pressure, pseudopressure, compressibility, viscosity, z-factor, density (all positive, pressure increasing).
 
 Families
-  shipped   : the CSVs under tests/data (renamed as the repository's tests do), rows with p <= 0 dropped,
+  shipped   : the CSVs under tests/data (renamed as the repository's tests do), rows with p <= 0 and rows whose
+              Z-factor is the old optimiser's search bound (Haynesville table above 12290 psia) dropped,
               optionally thinned (every k-th row) and cropped
   power     : z = 1, rho = p, c = 1/p, mu = mu0 (p/p0)^k  -> alpha ~ p^(1-k); k = 1 is constant diffusivity
   kinked    : as power with exponent k1 below p_k and k2 above (continuous mu, kink at a table node)
@@ -107,7 +108,11 @@ def _shipped_raw(name):
 
     fn = {"gas": "pvt_gas.csv", "ideal": "pvt_ideal_gas.csv", "hay": "pvt_gas_HAYNESVILLE SHALE_20.csv"}[name]
     df = pd.read_csv(os.path.join(env.DATA_DIR, fn)).rename(columns=_RENAME)
-    df = df[df["pressure"] > 0.5].reset_index(drop=True)
+    df = df[df["pressure"] > 0.5]
+    # the shipped Haynesville table was tabulated with the old optimiser-based Z-factor: its rows above 12290 psia
+    # carry Z = 5 (the search bound, defect fixed in /repo 42e14aa) and a density that is not increasing; they are
+    # not "positive, mutually consistent properties" and are dropped
+    df = df[df["z-factor"] < 4.99].reset_index(drop=True)
     return {c: np.asarray(df[c], float) for c in COLS}
 
 
